@@ -4,6 +4,7 @@
 -/
 import RevalModel.Impl.RuleParse
 import RevalModel.Lemmas.Sorted
+import RevalModel.Lemmas.Lines
 
 namespace Reval.C14
 open RuleParse
@@ -92,6 +93,35 @@ theorem meta_item_step (o : Oracle) (f : Nat) (k : Str) (r r2 : List Tok) (acc :
     (h : pIf o (parseFuel (.p ['@'] :: .ident k :: .p [':'] :: r)) r = .ok e (.p [';'] :: r2)) :
     pRule o (f + 1) (.p ['@'] :: .ident k :: .p [':'] :: r) acc = pRule o f r2 ((k, e) :: acc) := by
   rw [pRule]; simp [h]
+
+/-- the line scan of `Rule::parse` loses nothing and never looks across a line end: the pieces concatenate to the text,
+    and no line handed to the comment test contains a line feed -/
+theorem lines_partition (s : Str) :
+    (splitInclusive s []).flatten = s ∧ ∀ l ∈ lines s, '\n' ∉ l := by
+  refine ⟨by simpa using splitInclusive_flatten s [], ?_⟩
+  intro l hl
+  unfold lines at hl
+  simp only [List.mem_map] at hl
+  obtain ⟨p, hp, rfl⟩ := hl
+  obtain ⟨body, hb, hn⟩ := splitInclusive_pieces s [] (by simp) p hp
+  rcases hb with hb | hb
+  · rw [hb]; exact (stripEol_no_newline body hn).1
+  · rw [hb]; exact (stripEol_no_newline body hn).2
+
+
+/-- a text is a comment line of the rule exactly when some line of it, after its leading white space, starts with `//`;
+    the comment is the rest of that line, trimmed -/
+theorem comment_line_iff (s c : Str) :
+    c ∈ commentLines s ↔ ∃ l ∈ lines s, ∃ r, Str.trimStart l = '/' :: '/' :: r ∧ c = Str.trim r := by
+  unfold commentLines
+  simp only [List.mem_filterMap]
+  constructor
+  · rintro ⟨l, hl, h⟩
+    split at h
+    · rename_i r heq; cases h; exact ⟨l, hl, r, heq, rfl⟩
+    · cases h
+  · rintro ⟨l, hl, r, heq, rfl⟩
+    exact ⟨l, hl, by rw [heq]; rfl⟩
 
 /-! comment scan, as tests on concrete texts (the scan is line-based: `str::lines`, `trim_start`, `//`, `trim`) -/
 example : commentLines "  // a b  \r\n@k: i1; //not\n\t//\tc\n//\nx // y".toList = ["a b".toList, "c".toList, []] := by decide
